@@ -91,6 +91,24 @@ THEOREMS = [
     'Nb.C14.mkFile_length',
     'Nb.C14.hbytes_mkFile',
     'Nb.C14.thread_results_eq_numpy_mkFile_partial',
+    # wave 3: handle / lock topology of families (any root, any history) and its run-time counterpart
+    'Nb.C14.finv_step',
+    'Nb.C14.shared_handle_implies_shared_lock_family',
+    'Nb.C14.shared_handle_implies_shared_lock',
+    'Nb.C14.name_family_handles_private',
+    'Nb.C14.setstate_used_shares_handle_counterexample',
+    'Nb.C14.fam_eq_proxyLocks',
+    'Nb.C14.family_iff_copy_connected',
+    'Nb.C14.setOk_pieces',
+    'Nb.C14.hinv_step',
+    'Nb.C14.no_new_handle_sharing',
+    'Nb.C14.family_openers_stay_private',
+    'Nb.C14.handle_discipline_record',
+    # wave 3: one handle per read (file name, keep_file_open=False): correct whatever the locks
+    'Nb.C14.oinv_step',
+    'Nb.C14.private_handle_reads_correct',
+    'Nb.C14.name_family_reads_correct',
+    'Nb.C14.plan_perRead_sliced',
 ]
 ASSUMPTIONS = [
     'hand-written small-step Lean model (Model/C14.lean) of the lock/seek/read/opener-slot steps of '
@@ -117,6 +135,24 @@ ASSUMPTIONS = [
     'syntactic walk that fails loudly on shapes it does not understand; trusted: that walk (c14.py), and that '
     'volumeutils.array_from_file touches the file only through the seek/readinto/read it is observed to perform '
     '(array_from_file itself is not translated; its memmap attempt is the np.memmap contract)',
+    'wave 3 - handle topology: the family model `Fam` (per proxy: lock, copy()-family, handle kind = caller-supplied '
+    'object / persistent opener / one handle per read, opener object already created) is hand-written from copy(), '
+    'reshape(), __getstate__/__setstate__, _should_keep_file_open and _get_fileobj; tied to the code by the '
+    '`topology` stream (identities of the REAL lock and handle objects of every generated family, compared with the '
+    'model and judged directly) and by Generated/C14Handle.lean (lexical record of every `_opener` store/load, '
+    '`__dict__` use, `__getstate__` pop, constructor-call arguments, keep-open rule, `_get_fileobj` body; '
+    'handle_discipline_record); KEEP_FILE_OPEN_DEFAULT is taken to be False and indexed_gzip to be importable (as in '
+    'this environment: `.gz` names always persist their opener)',
+    'the exclusion theorems (Inv, reads_correct, ...) are about threads whose file operations are all under ONE '
+    'lock; for families over a file NAME (one lock and one handle per proxy) what is PROVED is that no two proxies '
+    'of a copy()-family ever hold the same handle - statically (shared_handle_implies_shared_lock, '
+    'name_family_handles_private) and in every reachable state of the small-step model (no_new_handle_sharing, '
+    'family_openers_stay_private); that reads through different proxies with different handles do not disturb each '
+    'other is covered by the small-step model being RUN against the real threads (streams name-topo, '
+    'random-name-topo), not by a theorem about multi-lock runs',
+    'closing of per-read handles and `__del__` of proxies are not modelled; in the model `opn` binds the thread\'s '
+    '`fileobj` to the new handle at once (in the persistent path the real code binds it at the following `yield '
+    'self._opener`, modelled by `getSlot`; no file operation happens in between)',
     'end-to-end theorems (*_partial): of the byte layer the LENGTH of the bytes read is proved on the driver file '
     '(hbytes_mkFile); that decodeLE reads the little-endian element bytes back (hypothesis SReq.OKd.hdec / '
     'SReq.OK.hdec) is still assumed (checked by `decide` on the example and by the correspondence stream on every '
@@ -124,7 +160,8 @@ ASSUMPTIONS = [
     '"result = decoder(single-threaded bytes)" (results_eq_single_threaded), not composed with NumPy',
 ]
 RULE = ('cases = (scenario in {proxy over an open BytesIO handle, over a minimal file-like without fileno/readinto, '
-        'over a real OS file object (np.memmap succeeds); keep_file_open=True proxy on a real file and on a .gz file} '
+        'over a real OS file object (np.memmap succeeds), over an Opener object; proxy on a file NAME with '
+        'keep_file_open=True / False, plain and .gz (indexed gzip)} '
         'x derivation history of further proxies over the same handle (copy(), two copies, copy of a copy, chains, '
         'reshape() then copy(), copy() then reshape(), copy.copy() = __setstate__) with reads through any 2-3 of them '
         'x mmap in {True,False} x array layout (F and C order) x per-thread read lists (1-2 reads: multi-segment '
@@ -133,7 +170,13 @@ RULE = ('cases = (scenario in {proxy over an open BytesIO handle, over a minimal
         'threads) x schedules enumerated '
         'systematically by stateless DFS with a bounded number of pre-emptions (quick <=2, thorough <=3/4), plus '
         'seeded random schedules incl. grants to blocked/finished threads, plus raw `read_segments` calls with '
-        'arbitrary segment lists sharing one lock. Reads through proxies of ONE copy()-family are checked by the '
+        'arbitrary segment lists sharing one lock; families over a file NAME (copy() before / after the source was '
+        'read from, copy of a copy, second construction on the same name, reshape(), copy.copy() of a fresh / used '
+        'proxy) with reads through DIFFERENT proxies; and, without threads, the handle/lock TOPOLOGY of every '
+        'scenario x every history of <= 2 steps over {copy, copy.copy, reshape, further construction, completed read} + '
+        'random longer histories (pickle round trips included), on plain ArrayProxy objects and on the dataobj of '
+        'images loaded with nibabel.load: identities of the real lock / handle objects vs the family model, and '
+        '"same handle => same lock" inside every copy()-family. Reads through proxies of ONE copy()-family are checked by the '
         'oracle and the model; reads mixing families (reshape()/copy.copy() take a new lock: outside the property) '
         'are compared with the model only, which predicts the interference exactly. A case is non-trivial when its '
         'completed schedule switches '
@@ -625,6 +668,122 @@ def lock_record_generate(ap_module, fs_module):
             'end Nb.C14.GenLock\n')
 
 
+HANDLE_HEADER = '''/-! GENERATED by harness/props/c14.py regen() from the nibabel working tree (nibabel/arrayproxy.py) - do not
+    edit.  A purely LEXICAL record of how an ArrayProxy comes by its file handle: every store to / load of an
+    `_opener` attribute, every use of `__dict__`, the keys `__getstate__` drops, the arguments of every
+    `self.__class__(...)` construction, the decision part of `_should_keep_file_open` and the body of
+    `_get_fileobj`.  Props/C14 (`handle_discipline_record`) states the expected record - the rules of the family
+    model (`Fam.step`: what copy() / reshape() / __setstate__ / a read do to lock, handle kind and opener) are read
+    off these lines; a copy() that hands its opener on, a reshape() that starts passing keep_file_open, a
+    __getstate__ that drops more, a second place creating openers ... change the record and break it. -/
+namespace Nb.C14.GenHandle
+'''
+
+
+def _qual_walk(tree):
+    """(qualified function name, FunctionDef) for every function / method of the module, in source order"""
+    out = []
+
+    def rec(body, prefix):
+        for n in body:
+            if isinstance(n, ast.ClassDef):
+                rec(n.body, prefix + n.name + '.')
+            elif isinstance(n, (ast.FunctionDef, ast.AsyncFunctionDef)):
+                out.append((prefix + n.name, n))
+                rec(n.body, prefix + n.name + '.')
+    rec(tree.body, '')
+    return out
+
+
+def _own_nodes(fn):
+    """AST nodes of a function excluding nested function / class definitions"""
+    stack = list(fn.body)
+    while stack:
+        n = stack.pop(0)
+        yield n
+        for ch in ast.iter_child_nodes(n):
+            if not isinstance(ch, (ast.FunctionDef, ast.AsyncFunctionDef, ast.ClassDef)):
+                stack.append(ch)
+
+
+def handle_record_generate(ap_module):
+    tree = ast.parse(open(ap_module.__file__).read())
+    stores, loads, dicts, attrfuncs = [], [], [], []
+    for name, fn in _qual_walk(tree):
+        for n in sorted((x for x in _own_nodes(fn) if hasattr(x, 'lineno')), key=lambda x: (x.lineno, x.col_offset)):
+            if isinstance(n, (ast.Assign, ast.AnnAssign, ast.AugAssign)):
+                tgs = n.targets if isinstance(n, ast.Assign) else [n.target]
+                for tg in tgs:
+                    for el in (tg.elts if isinstance(tg, (ast.Tuple, ast.List)) else [tg]):
+                        if isinstance(el, ast.Attribute) and el.attr == '_opener':
+                            stores.append((name, _src(el.value), _src(n.value) if n.value is not None else '-'))
+            if isinstance(n, ast.Delete):
+                for el in n.targets:
+                    if isinstance(el, ast.Attribute) and el.attr == '_opener':
+                        stores.append((name, _src(el.value), '<del>'))
+            if isinstance(n, ast.Attribute) and n.attr == '_opener' and isinstance(n.ctx, ast.Load):
+                loads.append((name, _src(n.value)))
+            if isinstance(n, ast.Attribute) and n.attr == '__dict__':
+                dicts.append((name, _src(n)))
+            if isinstance(n, ast.Call) and isinstance(n.func, ast.Name) and n.func.id in ('setattr', 'getattr', 'delattr', 'hasattr', 'vars'):
+                # attribute access by NAME: all setattr / delattr / vars, and getattr / hasattr unless the name is a
+                # string constant other than the handle / lock attributes
+                key = n.args[1] if len(n.args) > 1 else None
+                if n.func.id in ('setattr', 'delattr', 'vars') or not isinstance(key, ast.Constant) \
+                        or key.value in ('_opener', '_lock', '__dict__'):
+                    attrfuncs.append((name, _src(n)))
+    gs = _func(ap_module, 'ArrayProxy.__getstate__')
+    pops = [n.args[0].value for n in ast.walk(gs) if isinstance(n, ast.Call) and isinstance(n.func, ast.Attribute)
+            and n.func.attr == 'pop' and n.args and isinstance(n.args[0], ast.Constant)]
+    dels = [_src(n) for n in ast.walk(gs) if isinstance(n, ast.Delete)]
+    if dels:
+        raise SkelError('__getstate__ deletes state entries: ' + '; '.join(dels))
+    ctors = []
+    for name, fn in _qual_walk(tree):
+        for n in _own_nodes(fn):
+            if isinstance(n, ast.Call) and (_is_self_attr(n.func, '__class__') or _is_name(n.func, 'ArrayProxy')
+                                            or (isinstance(n.func, ast.Call) and _is_name(n.func.func, 'type'))):
+                if any(k.arg is None for k in n.keywords) or any(isinstance(a, ast.Starred) for a in n.args):
+                    raise SkelError('construction with * / ** arguments in ' + name)
+                ctors.append((name, [_src(a) for a in n.args], [(k.arg, _src(k.value)) for k in n.keywords]))
+    sk = _func(ap_module, 'ArrayProxy._should_keep_file_open')
+    body = [st for st in sk.body if not (isinstance(st, ast.Expr) and isinstance(st.value, ast.Constant))]
+    k0 = next((i for i, st in enumerate(body) if isinstance(st, ast.If) and isinstance(st.test, ast.Call)
+               and _is_self_attr(st.test.func, '_has_fh')), None)
+    if k0 is None:
+        raise SkelError('_should_keep_file_open: `if self._has_fh():` not found')
+    keep_rule = [' '.join(_src(st).split()) for st in body[k0:]]
+    gf = _func(ap_module, 'ArrayProxy._get_fileobj')
+    gf_body = [' '.join(_src(st).split()) for st in gf.body
+               if not (isinstance(st, ast.Expr) and isinstance(st.value, ast.Constant))]
+    init = _func(ap_module, 'ArrayProxy.__init__')
+    flags = [' '.join(_src(st).split()) for st in init.body
+             if any(isinstance(n, ast.Attribute) and n.attr in ('_persist_opener', '_keep_file_open', 'file_like')
+                    and isinstance(n.ctx, ast.Store) for n in ast.walk(st))]
+    S2, S3 = 'List (String × String)', 'List (String × String × String)'
+    return (HANDLE_HEADER +
+            '/-- every store to an `_opener` attribute in arrayproxy.py: (function, object, value) -/\n'
+            'def openerStores : %s :=\n  %s\n' % (S3, _lean_list(stores)) +
+            '/-- every load of an `_opener` attribute: (function, object) -/\n'
+            'def openerLoads : %s :=\n  %s\n' % (S2, _lean_list(loads)) +
+            '/-- every use of `__dict__`: (function, expression) -/\n'
+            'def dictUses : %s :=\n  %s\n' % (S2, _lean_list(dicts)) +
+            '/-- every call of setattr/delattr/vars, and of getattr/hasattr with a computed name or naming `_opener` /\n'
+            '    `_lock` / `__dict__`: (function, call) -/\n'
+            'def attrCalls : %s :=\n  %s\n' % (S2, _lean_list(attrfuncs)) +
+            '/-- keys `__getstate__` removes from the pickled state -/\n'
+            'def statePops : List String :=\n  %s\n' % _lean_list(pops) +
+            '/-- every construction of a proxy: (function, positional arguments, keyword arguments) -/\n'
+            'def ctorCalls : List (String × List String × List (String × String)) :=\n  %s\n' % _lean_list(ctors) +
+            '/-- `_should_keep_file_open` from `if self._has_fh():` on -/\n'
+            'def keepRule : List String :=\n  %s\n' % _lean_list(keep_rule) +
+            '/-- the statements of `__init__` that set `file_like` / `_keep_file_open` / `_persist_opener` -/\n'
+            'def initFlags : List String :=\n  %s\n' % _lean_list(flags) +
+            '/-- the body of `_get_fileobj` -/\n'
+            'def getFileobj : List String :=\n  %s\n' % _lean_list(gf_body) +
+            'end Nb.C14.GenHandle\n')
+
+
 def regen():
     """constants of the source the model depends on (re-read from the working tree on every run)"""
     import nibabel.fileslice as fs
@@ -639,6 +798,7 @@ def regen():
     # (the generated definitions are not counted as obligations: the theorems about them are in THEOREMS)
     write_if_changed(os.path.join(LEAN, 'NibabelModel', 'Generated', 'C14Src.lean'), skel_generate(ap, fs))
     write_if_changed(os.path.join(LEAN, 'NibabelModel', 'Generated', 'C14Lock.lean'), lock_record_generate(ap, fs))
+    write_if_changed(os.path.join(LEAN, 'NibabelModel', 'Generated', 'C14Handle.lean'), handle_record_generate(ap))
     return []
 
 
@@ -1080,11 +1240,18 @@ def fmt_res(arr, order):
 
 
 def topo_of(d):
-    """derivation history of further proxies: ['c', src] copy(), ['u', src] copy.copy() (= __setstate__),
-    ['r', src, shape] reshape().  Old-format data: one copy() of the original in the handle scenario."""
+    """history of the family: ['c', src] copy(), ['u', src] copy.copy() (= __setstate__), ['k', src] pickle
+    round trip (= __setstate__ as well), ['r', src, shape] reshape(), ['n'] a further construction on the same
+    file_like (the same file loaded again), ['x', p] a completed single-threaded read through proxy p.
+    Old-format data: one copy() of the original in the handle scenario."""
     if 'topo' in d:
         return d['topo']
     return [['c', 0]] if d['scn'].startswith('fh') else []
+
+
+def derivations(d):
+    """the steps of the history that create a proxy (proxy k+1 is made by the k-th of them)"""
+    return [op for op in topo_of(d) if op[0] != 'x']
 
 
 def who_of(r):
@@ -1093,25 +1260,202 @@ def who_of(r):
 
 
 def proxy_shapes(d):
-    shapes = [list(d['shape'])]
-    for op in topo_of(d):
-        shapes.append(list(op[2]) if op[0] == 'r' else shapes[op[1]])
+    shapes = [list(d.get('shape', [1]))]
+    for op in derivations(d):
+        shapes.append(list(op[2]) if op[0] == 'r' else shapes[0] if op[0] == 'n' else shapes[op[1]])
     return shapes
 
 
-def families(d):
-    """proxies connected by copy() edges over a shared handle (independent of the model: union-find)"""
-    topo = topo_of(d)
-    par = list(range(len(topo) + 1))
+IGZ_SCN = ('keepgz', 'namegz')
+
+
+def ref_topology(d):
+    """Independent reference (plain Python, not the Lean model) for the HISTORY of a family:
+    fam[i]  = copy()-family of proxy i (union-find over copy() edges - in every scenario),
+    hcls[i] = token of the handle OBJECT proxy i is documented to read through when the threads start
+              ('base' = the caller's file object; ('o', k) = the k-th persistent opener already created; None =
+              a handle of its own: a persistent opener created later, or one handle per read)."""
+    scn = d['scn']
+    handle = scn.startswith('fh')
+    root_kind = 'h' if handle else ('p' if scn in ('keep', 'keepgz', 'namegz') else 'r')
+    kinds = [root_kind]
+    opener = [None]
+    par = [0]
+    nopen = 0
 
     def find(x):
         while par[x] != x:
             x = par[x]
         return x
-    for k, op in enumerate(topo):
-        if op[0] == 'c' and d['scn'].startswith('fh'):
-            par[find(k + 1)] = find(op[1])
-    return [find(i) for i in range(len(par))]
+    for op in topo_of(d):
+        if op[0] == 'x':
+            if kinds[op[1]] == 'p' and opener[op[1]] is None:
+                opener[op[1]] = ('o', nopen)
+                nopen += 1
+            continue
+        k = len(kinds)
+        par.append(k)
+        if op[0] == 'c':
+            par[k] = find(op[1])
+            kinds.append(kinds[op[1]])
+            opener.append(None)
+        elif op[0] in ('u', 'k'):
+            kinds.append(kinds[op[1]])
+            opener.append(opener[op[1]])      # __dict__ is taken over, `_opener` included
+        elif op[0] == 'r':
+            # reshape() does not pass keep_file_open on: default False, unless indexed gzip persists anyway
+            kinds.append('h' if handle else ('p' if scn in IGZ_SCN else 'r'))
+            opener.append(None)
+        elif op[0] == 'n':
+            kinds.append(root_kind)
+            opener.append(None)
+        else:
+            raise ValueError('unknown history step ' + str(op))
+    fam = [find(i) for i in range(len(par))]
+    hcls = ['base' if kinds[i] == 'h' else opener[i] for i in range(len(kinds))]
+    return fam, hcls, kinds
+
+
+def families(d):
+    """proxies connected by copy() edges (independent of the model: union-find)"""
+    return ref_topology(d)[0]
+
+
+def _data_path(buf, gz):
+    path = os.path.join(_tmpdir(), 'f_%d.img%s' % (hash_list(buf) ^ len(buf), '.gz' if gz else ''))
+    if not os.path.exists(path):
+        if gz:
+            import gzip
+            with gzip.open(path, 'wb') as fh:
+                fh.write(buf)
+        else:
+            with open(path, 'wb') as fh:
+                fh.write(buf)
+    return path
+
+
+NAME_SCN = {'keep': (False, True), 'keepgz': (True, True), 'name': (False, False), 'namegz': (True, False)}
+FH_SCN = ('fh', 'fhmin', 'fhos', 'fhop')
+ALL_SCN = FH_SCN + tuple(NAME_SCN)
+
+
+def build_family(d, S, Proxy, opened):
+    """Build the family of proxies of configuration `d` on the REAL code: the original proxy of scenario
+    `d['scn']`, then the history `topo_of(d)`.  `S` = active scheduler (numbers the handles) or None.
+    Returns (proxies, the caller-supplied handle object or None)."""
+    import copy as _copy
+    import pickle
+    buf = file_bytes(d)
+    order = d['order']
+    spec = (tuple(d['shape']), dtype_of(d['isz']), d['off'])
+    scn = d['scn']
+    f = None
+    if scn in FH_SCN:
+        hid = -1
+        if S is not None:
+            hid = S.nhandles
+            S.nhandles += 1
+        if scn == 'fh':
+            f = TFile(buf)
+            f.hid = hid
+        elif scn == 'fhop':
+            # an `Opener` object as `file_like` (it has read and seek: `_has_fh()`), wrapping the traced file
+            from nibabel.openers import Opener
+            raw = TFile(buf)
+            raw.hid = hid
+            f = Opener(raw)
+        elif scn == 'fhmin':
+            f = TMin(buf, hid)
+        else:
+            raw = open(_data_path(buf, False), 'rb')
+            opened.append(raw)
+            f = TRawW(raw, hid)
+        kw = {}
+        file_like = f
+    elif scn in NAME_SCN:
+        gz, keep = NAME_SCN[scn]
+        file_like = _data_path(buf, gz)
+        kw = {'keep_file_open': keep}
+    else:
+        raise ValueError('unknown scenario ' + str(scn))
+    mmap = (d.get('mmapv') or True) if d['mmap'] else False     # True, or one of the mode strings 'c' / 'r'
+    proxies = [Proxy(file_like, spec, mmap=mmap, order=order, **kw)]
+    for op in topo_of(d):
+        if op[0] == 'n':
+            proxies.append(Proxy(file_like, spec, mmap=mmap, order=order, **kw))
+            continue
+        src = proxies[op[1]]
+        if op[0] == 'x':
+            a = src[(0,)]         # a completed sliced read (never memory mapped)
+            del a
+            continue
+        if op[0] == 'c':
+            new = src.copy()
+        elif op[0] == 'u':
+            new = _copy.copy(src)
+        elif op[0] == 'k':
+            new = pickle.loads(pickle.dumps(src))
+        elif op[0] == 'r':
+            new = src.reshape(tuple(op[2]))
+        else:
+            raise ValueError('unknown derivation ' + str(op))
+        proxies.append(new)
+    return proxies, f
+
+
+def _innermost(obj):
+    """the object at the bottom of a chain of Opener / tracing wrappers"""
+    seen = 0
+    while seen < 10:
+        seen += 1
+        if isinstance(obj, TRaw):
+            obj = obj._f
+        elif hasattr(obj, 'fobj'):
+            obj = obj.fobj
+        else:
+            break
+    return obj
+
+
+def _first_seen(objs):
+    ids, out = [], []
+    for o in objs:
+        k = next((n for n, x in enumerate(ids) if x is o), None)
+        if k is None:
+            ids.append(o)
+            k = len(ids) - 1
+        out.append(k)
+    return out
+
+
+def observe_family(proxies, f, d):
+    """side-effect free observation of the family before the threads start: per proxy the lock OBJECT and the
+    handle OBJECT it already holds (the caller's file object / an already created persistent opener; None = a
+    handle of its own later).  The invariant the exclusion theorem needs — same handle => same lock inside a
+    copy()-family — is judged on these by the oracle."""
+    info = {}
+    fam = families(d)
+    hobj = []
+    for q in proxies:
+        if q._has_fh():
+            hobj.append(_innermost(q.file_like))
+        else:
+            o = q.__dict__.get('_opener_v', q.__dict__.get('_opener'))
+            hobj.append(None if o is None else _innermost(o))
+    locks = _first_seen([q._lock for q in proxies])
+    info['lock_ids'] = locks
+    bad = []
+    for i in range(len(proxies)):
+        for j in range(i + 1, len(proxies)):
+            if fam[i] == fam[j] and hobj[i] is not None and hobj[i] is hobj[j] and locks[i] != locks[j]:
+                bad.append((i, j))
+    info['unlocked_sharing'] = bad
+    if d['scn'] in FH_SCN:
+        ops = derivations(d)
+        info['shares'] = all(proxies[k + 1]._lock is proxies[op[1]]._lock for k, op in enumerate(ops) if op[0] == 'c')
+        info['copy_fh_same'] = all(q.file_like is f for q in proxies)
+    return info
+
 
 
 def idx_of(r):
@@ -1139,60 +1483,9 @@ def run_real(d, prefix):
         _S = S
         ap.RLock = TLock
         ap.openers = shim
-        spec = (tuple(d['shape']), dtype_of(d['isz']), d['off'])
         opened = []
-        if d['scn'].startswith('fh'):
-            hid = S.nhandles
-            S.nhandles += 1
-            if d['scn'] == 'fh':
-                f = TFile(buf)
-                f.hid = hid
-            elif d['scn'] == 'fhmin':
-                f = TMin(buf, hid)
-            elif d['scn'] == 'fhos':
-                path = os.path.join(_tmpdir(), 'f_%d.img' % (hash_list(buf) ^ len(buf)))
-                if not os.path.exists(path):
-                    with open(path, 'wb') as fh:
-                        fh.write(buf)
-                raw = open(path, 'rb')
-                opened.append(raw)
-                f = TRawW(raw, hid)
-            else:
-                raise ValueError('unknown scenario ' + str(d['scn']))
-            proxies = [TProxy(f, spec, mmap=bool(d['mmap']), order=order)]
-            shares = []
-            for op in topo_of(d):
-                src = proxies[op[1]]
-                if op[0] == 'c':
-                    new = src.copy()
-                    shares.append(new._lock is src._lock)
-                elif op[0] == 'u':
-                    import copy as _copy
-                    new = _copy.copy(src)
-                elif op[0] == 'r':
-                    new = src.reshape(tuple(op[2]))
-                else:
-                    raise ValueError('unknown derivation ' + str(op))
-                proxies.append(new)
-            info['shares'] = all(shares)
-            info['copy_fh_same'] = all(q.file_like is f for q in proxies)
-            info['lock_ids'] = [q._lock.id for q in proxies]
-        else:
-            if topo_of(d):
-                raise ValueError('derived proxies are only generated in the handle scenarios')
-            if d['scn'] not in ('keep', 'keepgz'):
-                raise ValueError('unknown scenario ' + str(d['scn']))
-            gz = d['scn'] == 'keepgz'
-            path = os.path.join(_tmpdir(), 'f_%d.img%s' % (hash_list(buf) ^ len(buf), '.gz' if gz else ''))
-            if not os.path.exists(path):
-                if gz:
-                    import gzip
-                    with gzip.open(path, 'wb') as fh:
-                        fh.write(buf)
-                else:
-                    with open(path, 'wb') as fh:
-                        fh.write(buf)
-            proxies = [TProxy(path, spec, mmap=bool(d['mmap']), order=order, keep_file_open=True)]
+        proxies, f = build_family(d, S, TProxy, opened)
+        info.update(observe_family(proxies, f, d))
 
         def mk(t):
             def fn():
@@ -1200,11 +1493,13 @@ def run_real(d, prefix):
                     try:
                         p = proxies[who_of(r)]
                         idx = idx_of(r)
+                        # whole array: np.asarray(proxy) or the public proxy.get_unscaled()
+                        whole = p.get_unscaled if r.get('via') == 'U' else (lambda: np.asarray(p))
                         if r.get('outer'):
                             with p._lock:
-                                a = np.asarray(p) if idx is None else p[idx]
+                                a = whole() if idx is None else p[idx]
                         else:
-                            a = np.asarray(p) if idx is None else p[idx]
+                            a = whole() if idx is None else p[idx]
                         results[t].append(fmt_res(a, order))
                         del a
                     except _Abort:
@@ -1283,11 +1578,65 @@ def run_raw(d, prefix):
     return ' '.join(S.events) + (' DEADLOCK' if S.deadlock else ''), S.sched, S.enabled, info
 
 
+TOPO_LAYOUT = {'shape': [4, 3, 2], 'isz': 2, 'off': 8, 'order': 'F', 'extra': 0}
+TOPO_RESHAPES = [[12, 2], [24], [4, 6], [2, 2, 6]]
+
+
+def _nifti_path(gz):
+    import nibabel as nib
+    path = os.path.join(_tmpdir(), 'topo.nii' + ('.gz' if gz else ''))
+    if not os.path.exists(path):
+        nib.Nifti1Image(np.arange(24, dtype=np.int16).reshape((4, 3, 2)), np.eye(4)).to_filename(path)
+    return path
+
+
+def run_topology(d):
+    """Handle / lock topology of a family as an observable of the REAL objects (plain ArrayProxy, or the
+    `dataobj` of images loaded with nibabel.load): build the family, then ask every proxy for its file object
+    (all of them held at the same time) and record which proxies yield the same OS-level handle object, which
+    hold the same lock object, and where the handle comes from."""
+    import contextlib
+    import nibabel.arrayproxy as ap
+    opened = []
+    full = dict(TOPO_LAYOUT, **d)
+    try:
+        if d.get('via') == 'load':
+            import nibabel as nib
+            if d['scn'] not in NAME_SCN:
+                raise ValueError('images are loaded from file names')
+            gz, keep = NAME_SCN[d['scn']]
+            path = _nifti_path(gz)
+            mm = bool(d['mmap'])
+
+            def Proxy(file_like, spec, mmap=True, order=None, keep_file_open=None):
+                return nib.load(path, mmap=mm, keep_file_open=keep).dataobj
+            proxies, f = build_family(full, None, Proxy, opened)
+        else:
+            proxies, f = build_family(full, None, ap.ArrayProxy, opened)
+        with contextlib.ExitStack() as st:
+            fos = [st.enter_context(q._get_fileobj()) for q in proxies]
+            hcl = _first_seen([_innermost(o) for o in fos])
+        lcl = _first_seen([q._lock for q in proxies])
+        kinds = ''.join('h' if q._has_fh() else ('p' if q._persist_opener else 'r') for q in proxies)
+        return 'L%s H%s K%s' % (','.join(map(str, lcl)), ','.join(map(str, hcl)), kinds)
+    finally:
+        for o in opened:
+            try:
+                o.close()
+            except Exception:
+                pass
+
+
 # ------------------------------------------------------------------ cases
 
 def fmt_topo(d):
-    return ','.join(op[0] + str(op[1]) + (':' + 'x'.join(map(str, op[2])) if op[0] == 'r' else '')
-                    for op in topo_of(d)) or '-'
+    def one(op):
+        if op[0] == 'n':
+            return 'n'
+        if op[0] == 'r':
+            return 'r%d:%s' % (op[1], 'x'.join(map(str, op[2])))
+        return {'k': 'u'}.get(op[0], op[0]) + str(op[1])     # a pickle round trip is __setstate__ as well
+    return ','.join(one(op) for op in topo_of(d)) or '-'
 
 
 def fmt_read(r):
@@ -1296,6 +1645,9 @@ def fmt_read(r):
 
 
 def mk_case(d, stream='dfs', completed=None):
+    if d['op'] == 'topo':
+        return Case('C14 topo %s %s' % (d['scn'], fmt_topo(d)), d,
+                    (d['scn'], d.get('via', 'ctor'), d['mmap'], json_key(topo_of(d))), stream)
     sched = ','.join(map(str, d['sched'])) if d['sched'] else '-'
     if d['op'] == 'raw':
         progs = '|'.join(','.join(raw_prog_tokens(d, t)) or '-' for t in range(len(d['calls'])))
@@ -1313,6 +1665,10 @@ def mk_case(d, stream='dfs', completed=None):
     if completed is not None and _switches(completed[0], completed[1]):
         key = (cfgkey, tuple(completed[0]))
     return Case(line, d, key, stream)
+
+
+def json_key(x):
+    return tuple(json_key(i) for i in x) if isinstance(x, (list, tuple)) else x
 
 
 def _switches(sched, enabled):
@@ -1421,14 +1777,24 @@ ANYSHAPE = {
 }
 
 
-def base_cfg(layout, scn, mmap, progs):
+def base_cfg(layout, scn, mmap, progs, rng=None):
     shape, isz, off, order, extra = LAYOUTS[layout][:5]
-    return {'op': 'run', 'scn': scn, 'mmap': int(mmap), 'order': order, 'isz': isz, 'off': off, 'extra': extra,
-            'shape': list(shape), 'progs': progs}
+    cfg = {'op': 'run', 'scn': scn, 'mmap': int(mmap), 'order': order, 'isz': isz, 'off': off, 'extra': extra,
+           'shape': list(shape), 'progs': progs}
+    if rng is not None and mmap and rng.random() < 0.4:
+        cfg['mmapv'] = rng.choice(['c', 'r'])         # the documented mode strings instead of True
+    return cfg
 
 
 def pick(rng, layout, kind):
     return rng.choice(LAYOUTS[layout][5][kind])
+
+
+def entry(rng, r):
+    """which public entry point performs a whole-array read"""
+    if r['idx'] == 'W' and rng.random() < 0.35:
+        r['via'] = 'U'
+    return r
 
 
 def gen_progs(rng, layout, kinds_per_thread, scn, outer_p=0.0):
@@ -1439,7 +1805,7 @@ def gen_progs(rng, layout, kinds_per_thread, scn, outer_p=0.0):
             who = 'p'
             if scn.startswith('fh') and rng.random() < 0.5:
                 who = 'c'
-            th.append(rd(who, pick(rng, layout, k), outer=rng.random() < outer_p))
+            th.append(entry(rng, rd(who, pick(rng, layout, k), outer=rng.random() < outer_p)))
         progs.append(th)
     if scn.startswith('fh') and len(progs) > 1 and all(r['who'] == progs[0][0]['who'] for th in progs for r in th):
         progs[-1][0]['who'] = 'c' if progs[0][0]['who'] == 'p' else 'p'    # always mix proxy and copy
@@ -1450,8 +1816,8 @@ def gen_topo_progs(rng, layout, topo, readers_per_thread, kinds=None, outer_p=0.
     """reads through explicitly chosen proxies of a derivation history (`readers_per_thread`: per thread the
     list of proxy numbers it reads through); indices fit the shape of the proxy used"""
     reshaped = set()
-    for k, op in enumerate(topo):
-        if op[0] == 'r' or op[1] in reshaped:
+    for k, op in enumerate([o for o in topo if o[0] != 'x']):
+        if op[0] == 'r' or (op[0] != 'n' and op[1] in reshaped):
             reshaped.add(k + 1)
     progs = []
     for readers in readers_per_thread:
@@ -1459,7 +1825,7 @@ def gen_topo_progs(rng, layout, topo, readers_per_thread, kinds=None, outer_p=0.
         for who in readers:
             kind = rng.choice(kinds or KINDS2)
             pool = ANYSHAPE[kind] if who in reshaped else LAYOUTS[layout][5][kind]
-            th.append(rd(who, rng.choice(pool), outer=rng.random() < outer_p))
+            th.append(entry(rng, rd(who, rng.choice(pool), outer=rng.random() < outer_p)))
         progs.append(th)
     return progs
 
@@ -1483,6 +1849,55 @@ def topologies(rng, layout):
         ([['u', 0], ['c', 1]], [(1, 2), (0, 1), (0, 2)]),
         ([['c', 0], ['u', 1], ['c', 2], ['c', 0]], [(2, 3), (0, 4), (1, 4), (0, 3)]),
     ]
+
+
+def name_topologies(rng, layout):
+    """histories of families over a file NAME (every proxy has its own lock; a persistent opener belongs to one
+    proxy, created on first use): (history, reader sets worth racing).  `x<p>` = proxy p has already been read
+    from when the next step happens — the state a proxy is in when it is copied matters."""
+    rs = LAYOUTS[layout][6]
+    r = lambda src: ['r', src, list(rng.choice(rs))]
+    return [
+        ([['c', 0]], [(0, 1)]),
+        ([['x', 0], ['c', 0]], [(0, 1)]),
+        ([['c', 0], ['x', 1], ['c', 1]], [(0, 2), (1, 2), (0, 1, 2)]),
+        ([['c', 0], ['c', 0]], [(1, 2), (0, 1, 2)]),
+        ([['x', 0], ['c', 0], ['c', 1]], [(0, 2), (1, 2), (0, 1, 2)]),
+        ([['n']], [(0, 1)]),
+        ([['x', 0], ['n'], ['c', 1]], [(0, 2), (1, 2)]),
+        ([r(0)], [(0, 1)]),
+        ([['x', 0], r(0), ['c', 1]], [(0, 2), (1, 2)]),
+        # copy.copy(): the state dict is taken over - of a proxy that has not been read from: nothing shared
+        ([['u', 0]], [(0, 1)]),
+        ([['u', 0], ['c', 1], ['x', 0]], [(0, 2), (1, 2)]),
+        # ... of a proxy that HAS been read from: the opener OBJECT is shared under a new lock (outside the
+        # property: correspondence only); its copy() has a handle of its own again
+        ([['x', 0], ['u', 0]], [(0, 1)]),
+        ([['x', 0], ['u', 0], ['c', 1]], [(0, 2), (1, 2), (0, 1)]),
+    ]
+
+
+def random_history(rng, scn, n_ops, reshapes, pickle_ok=False):
+    """a random valid history (see topo_of) for scenario `scn`"""
+    topo, n = [], 1
+    for _ in range(n_ops):
+        kinds = ['c', 'c', 'c', 'x', 'x', 'u', 'r', 'n'] + (['k'] if pickle_ok else [])
+        k = rng.choice(kinds)
+        src = rng.randrange(n)
+        if k == 'n':
+            topo.append(['n'])
+        elif k == 'r':
+            topo.append(['r', src, list(rng.choice(reshapes))])
+        elif k == 'k':
+            cand = dict(scn=scn, topo=topo)
+            if scn in FH_SCN or ref_topology(cand)[1][src] is not None:
+                k = 'u'          # an open handle cannot be pickled
+            topo.append([k, src])
+        else:
+            topo.append([k, src])
+        if k != 'x':
+            n += 1
+    return topo
 
 
 KINDS = ['multi', 'single', 'whole']
@@ -1511,7 +1926,7 @@ def cases(rng, tier):
                 for layout in ('F45', 'tiny'):
                     for ka in KINDS:
                         for kb in KINDS:
-                            add(base_cfg(layout, scn, mm, gen_progs(rng, layout, [[ka], [kb]], scn)), 'search', 2, 150)
+                            add(base_cfg(layout, scn, mm, gen_progs(rng, layout, [[ka], [kb]], scn), rng=rng), 'search', 2, 150)
         return out
 
     thorough = tier == 'thorough'
@@ -1523,14 +1938,14 @@ def cases(rng, tier):
             for ka in KINDS:
                 for kb in KINDS:
                     layout = rng.choice(layouts_for(scn, thorough))
-                    add(base_cfg(layout, scn, mm, gen_progs(rng, layout, [[ka], [kb]], scn)), 'dfs-2x1', preA, limA)
+                    add(base_cfg(layout, scn, mm, gen_progs(rng, layout, [[ka], [kb]], scn), rng=rng), 'dfs-2x1', preA, limA)
     # ---- B: 2 threads x 2 reads
     nB = 10 if thorough else 4
     for _ in range(nB):
         scn = rng.choice(['fh', 'fh', 'keep'])
         layout = rng.choice(layouts_for(scn))
         kinds = [[rng.choice(KINDS), rng.choice(KINDS)], [rng.choice(KINDS), rng.choice(KINDS)]]
-        add(base_cfg(layout, scn, rng.randrange(2), gen_progs(rng, layout, kinds, scn, outer_p=0.25)),
+        add(base_cfg(layout, scn, rng.randrange(2), gen_progs(rng, layout, kinds, scn, outer_p=0.25), rng=rng),
             'dfs-2x2', 3 if thorough else 2, 1500 if thorough else 120)
     # ---- C: 3 threads x 1-2 reads
     nC = 10 if thorough else 4
@@ -1538,13 +1953,13 @@ def cases(rng, tier):
         scn = rng.choice(['fh', 'fh', 'keep'])
         layout = rng.choice(layouts_for(scn))
         kinds = [[rng.choice(KINDS)] + ([rng.choice(KINDS)] if rng.random() < 0.3 else []) for _ in range(3)]
-        add(base_cfg(layout, scn, rng.randrange(2), gen_progs(rng, layout, kinds, scn, outer_p=0.15)),
+        add(base_cfg(layout, scn, rng.randrange(2), gen_progs(rng, layout, kinds, scn, outer_p=0.15), rng=rng),
             'dfs-3', 3 if thorough else 2, 2000 if thorough else 120)
     # ---- D: deep pre-emption bound on the smallest configurations (thorough)
     if thorough:
         for scn in ('fh', 'keep'):
             for ka, kb in (('single', 'single'), ('single', 'whole'), ('multi', 'single')):
-                add(base_cfg('tiny', scn, 0, gen_progs(rng, 'tiny', [[ka], [kb]], scn)), 'dfs-deep', 4, 3000)
+                add(base_cfg('tiny', scn, 0, gen_progs(rng, 'tiny', [[ka], [kb]], scn), rng=rng), 'dfs-deep', 4, 3000)
     # ---- E: random schedules (also grants to blocked / finished / non-existent threads)
     nE = 1500 if thorough else 250
     for _ in range(nE):
@@ -1552,7 +1967,7 @@ def cases(rng, tier):
         layout = rng.choice(layouts_for(scn))
         nt = rng.choice([2, 2, 3])
         kinds = [[rng.choice(KINDS) for _ in range(rng.choice([1, 1, 2]))] for _ in range(nt)]
-        cfg = base_cfg(layout, scn, rng.randrange(2), gen_progs(rng, layout, kinds, scn, outer_p=0.2))
+        cfg = base_cfg(layout, scn, rng.randrange(2), gen_progs(rng, layout, kinds, scn, outer_p=0.2), rng=rng)
         d = dict(cfg, sched=random_prefix(rng, nt, rng.randrange(0, 60), True), stream='random')
         _, sched, enabled, _ = run_real(d, d['sched'])
         out.append(mk_case(d, 'random', (sched, enabled)))
@@ -1575,20 +1990,22 @@ def cases(rng, tier):
                 for readers in (reader_sets if thorough else rng.sample(reader_sets, 2)):
                     per_thread = [[w] + ([rng.choice(readers)] if rng.random() < 0.25 else []) for w in readers]
                     progs = gen_topo_progs(rng, layout, topo, per_thread, outer_p=0.1)
-                    cfg = dict(base_cfg(layout, scn, rng.randrange(2), progs), topo=topo)
+                    cfg = dict(base_cfg(layout, scn, rng.randrange(2), progs, rng=rng), topo=topo)
                     add(cfg, 'topo', 3 if thorough else 2, limG)
     # ---- H: kinds of handle the caller may supply: BytesIO (np.memmap rejects it: fileno() raises), an object
     #         without fileno/readinto (AttributeError inside np.memmap; `read` + copy branch), a real OS file
     #         object (np.memmap succeeds), and a `.gz` path with keep_file_open=True (persistent GzipFile: np.memmap
     #         is not attempted) — whole-array reads with the DEFAULT mmap=True racing sliced reads
     limH = 100 if thorough else 36
-    for scn in ('fh', 'fhmin', 'fhos', 'keepgz'):
+    for scn in ('fh', 'fhmin', 'fhos', 'keepgz', 'fhop', 'name', 'namegz'):
         for mm in (1, 0):
             for ka, kb in (('whole', 'multi'), ('whole', 'single'), ('whole', 'whole'), ('whole', 'full1')):
                 if mm == 0 and not thorough and kb in ('whole', 'full1'):
                     continue
+                if scn in ('fhop', 'name', 'namegz') and not thorough and (mm == 0 or kb != 'multi'):
+                    continue
                 layout = rng.choice(layouts_for(scn, thorough))
-                add(base_cfg(layout, scn, mm, gen_progs(rng, layout, [[ka], [kb]], scn)), 'handle-kind',
+                add(base_cfg(layout, scn, mm, gen_progs(rng, layout, [[ka], [kb]], scn), rng=rng), 'handle-kind',
                     3 if thorough else 2, limH)
     # ---- K: single-segment shapes of read_segments: one segment covering ALL the data (not the whole-array
     #         path), a segment starting at the data offset, no segment at all — against each other kind
@@ -1597,19 +2014,75 @@ def cases(rng, tier):
         for kb in KINDS2 if thorough else rng.sample(KINDS2, 3):
             scn = rng.choice(['fh', 'fhmin', 'fhos', 'keep', 'keepgz'])
             layout = rng.choice(layouts_for(scn))
-            add(base_cfg(layout, scn, rng.randrange(2), gen_progs(rng, layout, [[ka], [kb]], scn)), 'seg-kinds',
+            add(base_cfg(layout, scn, rng.randrange(2), gen_progs(rng, layout, [[ka], [kb]], scn), rng=rng), 'seg-kinds',
                 3 if thorough else 2, limK)
+    # ---- T: handle / lock TOPOLOGY of families, no threads: every way of making the original proxy (file object,
+    #         Opener object, no-fileno object, OS file; file name with keep_file_open True / False, .gz names with
+    #         indexed gzip; plain ArrayProxy or the dataobj of an image loaded from the name) x every history of
+    #         at most two steps over {copy, copy.copy, reshape, a further construction, a completed read} +
+    #         random longer ones (pickle round trips of name proxies included): which proxies share a handle
+    #         object, which a lock object — compared with the model and judged ("same handle => same lock"
+    #         inside a copy()-family)
+    def add_topo(scn, via, mm, topo):
+        out.append(mk_case({'op': 'topo', 'scn': scn, 'via': via, 'mmap': mm, 'topo': topo}, 'topology'))
+
+    steps1 = lambda n: [['c', s] for s in range(n)] + [['u', s] for s in range(n)] + [['x', s] for s in range(n)] \
+        + [['r', s, rng.choice(TOPO_RESHAPES)] for s in range(n)] + [['n']]
+    for scn in ALL_SCN:
+        vias = ['ctor'] + (['load'] if scn in NAME_SCN else [])
+        for via in vias:
+            hist = [[]] + [[a] for a in steps1(1)]
+            for a in steps1(1):
+                n1 = 1 if a[0] == 'x' else 2
+                two = [[a, b] for b in steps1(n1)]
+                hist += two if (thorough or via == 'ctor') else rng.sample(two, 4)
+            for topo in hist:
+                add_topo(scn, via, rng.randrange(2), topo)
+            for _ in range(40 if thorough else 6):
+                add_topo(scn, via, rng.randrange(2),
+                         random_history(rng, scn, rng.randrange(3, 8), TOPO_RESHAPES, pickle_ok=True))
+    # ---- N: families over a file NAME under the scheduler: concurrent reads through DIFFERENT proxies of the
+    #         family (copy made before / after the source was read from, copy of a copy, second construction,
+    #         reshape, copy.copy of a fresh / used proxy) with keep_file_open True and False, plain and .gz
+    limN = 60 if thorough else 14
+    fixedN = [('keep', 0), ('keep', 1), ('keepgz', 4), ('name', 0), ('namegz', 2)]
+    nameconfs = fixedN + [(rng.choice(list(NAME_SCN)), rng.randrange(13)) for _ in range(16 if thorough else 5)]
+    for scn, ti in nameconfs:
+        layout = rng.choice(layouts_for(scn))
+        topo, reader_sets = name_topologies(rng, layout)[ti]
+        readers = rng.choice(reader_sets)
+        per_thread = [[w] + ([rng.choice(readers)] if rng.random() < 0.25 else []) for w in readers]
+        progs = gen_topo_progs(rng, layout, topo, per_thread, kinds=KINDS, outer_p=0.1)
+        cfg = dict(base_cfg(layout, scn, rng.randrange(2), progs, rng=rng), topo=topo)
+        add(cfg, 'name-topo', 3 if thorough else 2, limN)
+    for _ in range(400 if thorough else 80):
+        scn = rng.choice(list(NAME_SCN))
+        layout = rng.choice(layouts_for(scn))
+        if rng.random() < 0.5:
+            topo, reader_sets = rng.choice(name_topologies(rng, layout))
+            readers = rng.choice(reader_sets)
+        else:
+            topo = random_history(rng, scn, rng.randrange(1, 6), LAYOUTS[layout][6])
+            nprox = 1 + len([o for o in topo if o[0] != 'x'])
+            readers = rng.sample(range(nprox), min(nprox, rng.choice([2, 2, 3])))
+        nt = rng.choice([2, 2, 3])
+        per_thread = [[rng.choice(readers) for _ in range(rng.choice([1, 1, 2]))] for _ in range(nt)]
+        progs = gen_topo_progs(rng, layout, topo, per_thread, outer_p=0.15)
+        cfg = dict(base_cfg(layout, scn, rng.randrange(2), progs, rng=rng), topo=topo)
+        d = dict(cfg, sched=random_prefix(rng, nt, rng.randrange(0, 60), True), stream='random-name-topo')
+        _, sched, enabled, _ = run_real(d, d['sched'])
+        out.append(mk_case(d, 'random-name-topo', (sched, enabled)))
     # ---- R: random schedules over random histories, handle kinds and all read kinds
     nR = 600 if thorough else 150
     for _ in range(nR):
-        scn = rng.choice(['fh', 'fh', 'fhmin', 'fhos'])
+        scn = rng.choice(['fh', 'fh', 'fhmin', 'fhos', 'fhop'])
         layout = rng.choice(layouts_for(scn))
         topo, reader_sets = rng.choice(topologies(rng, layout))
         nt = rng.choice([2, 2, 3])
         readers = rng.choice(reader_sets)
         per_thread = [[rng.choice(readers) for _ in range(rng.choice([1, 1, 2]))] for _ in range(nt)]
         progs = gen_topo_progs(rng, layout, topo, per_thread, outer_p=0.15)
-        cfg = dict(base_cfg(layout, scn, rng.randrange(2), progs), topo=topo)
+        cfg = dict(base_cfg(layout, scn, rng.randrange(2), progs, rng=rng), topo=topo)
         d = dict(cfg, sched=random_prefix(rng, nt, rng.randrange(0, 60), True), stream='random-topo')
         _, sched, enabled, _ = run_real(d, d['sched'])
         out.append(mk_case(d, 'random-topo', (sched, enabled)))
@@ -1620,6 +2093,12 @@ def cases(rng, tier):
 
 def impl(case):
     d = case.data
+    if d['op'] == 'topo':
+        try:
+            return run_topology(d)
+        except Exception as e:
+            case.extra = {'error': errname(e) + ': ' + str(e)[:120]}
+            return 'ERR:' + errname(e)
     line, sched, enabled, info = run_real(d, d['sched'])
     case.extra = dict(info, sched=sched, out=line)
     return line
@@ -1644,13 +2123,39 @@ def expected_results(d):
 
 
 def one_family(d):
-    """do all reads of the case go through proxies of ONE copy()-family?  Property C14 speaks about a proxy
-    and proxies copied from it; proxies made by reshape() / copy.copy() / unpickling take a new lock over the
-    same handle (documented observation, outside the property) — for cases mixing families only the
-    correspondence with the model (which predicts the interference exactly) is checked."""
+    """is the case judged by the oracle?  Property C14 speaks about a proxy and proxies copied from it; proxies
+    made by reshape() / copy.copy() / unpickling / a second construction take a NEW lock, and when they do so over
+    a handle object that is already in use (the caller's file object; the opener object a used keep_file_open
+    proxy hands to its copy.copy()) the interference is a documented observation outside the property — such
+    cases are only compared with the model (which predicts the interference exactly).  Everything else is judged:
+    one copy()-family in every scenario, and ANY mix of proxies over a file name whose handles are their own."""
+    fam, hcls, _ = ref_topology(d)
+    used = sorted({who_of(r) for th in d['progs'] for r in th})
+    for i in used:
+        for j in used:
+            if i < j and fam[i] != fam[j] and hcls[i] is not None and hcls[i] == hcls[j]:
+                return False      # two families over one handle object: a new lock over a handle in use
+    return True
+
+
+def oracle_topology(d, out):
+    """same handle => same lock, for every two proxies of one copy()-family (the families come from the
+    history: union-find over copy() edges); judged on the identities of the REAL lock / handle objects"""
+    try:
+        ls, hs, ks = out.split(' ')
+        L = [int(x) for x in ls[1:].split(',')]
+        H = [int(x) for x in hs[1:].split(',')]
+    except Exception:
+        return 'unreadable topology observation: ' + out
     fam = families(d)
-    used = {fam[who_of(r)] for th in d['progs'] for r in th}
-    return len(used) <= 1
+    if not (len(L) == len(H) == len(fam) == len(ks) - 1):
+        return 'topology observation has %d proxies, the history %d' % (len(L), len(fam))
+    for i in range(len(L)):
+        for j in range(i + 1, len(L)):
+            if fam[i] == fam[j] and H[i] == H[j] and L[i] != L[j]:
+                return ('proxies %d and %d of one copy()-family read through the same file handle under different '
+                        'locks (scenario %s, history %s: locks %s handles %s)' % (i, j, d['scn'], fmt_topo(d), L, H))
+    return None
 
 
 def trace_positions(events):
@@ -1674,7 +2179,9 @@ def oracle(case, out):
     d = case.data
     info = case.extra or {}
     if out.startswith('ERR'):
-        return 'harness/implementation raised: ' + out
+        return 'harness/implementation raised: ' + out + ' ' + str(info.get('error', ''))
+    if d['op'] == 'topo':
+        return oracle_topology(d, out)
     if info.get('deadlock') or 'DEADLOCK' in out:
         return 'deadlock: unfinished threads all blocked on the lock; schedule=%s' % info.get('sched')
     if d['op'] == 'raw':
@@ -1694,8 +2201,14 @@ def oracle(case, out):
             return 'copy() of a proxy over an open file handle does not share the lock object'
         if not info.get('copy_fh_same', True):
             return 'a derived proxy does not refer to the same file handle object'
-        if not one_family(d):
-            return None
+    static = None
+    if info.get('unlocked_sharing'):
+        # (judged after the data: a wrong result under a concrete schedule is the more telling report)
+        i, j = info['unlocked_sharing'][0]
+        static = ('before the threads start, proxies %d and %d of one copy()-family hold the same file handle object '
+                  'under different locks (history %s)' % (i, j, fmt_topo(d)))
+    if not one_family(d):
+        return static
     exp = expected_results(d)
     for t, (g, e) in enumerate(zip(got, exp)):
         if g != e:
@@ -1707,7 +2220,7 @@ def oracle(case, out):
     if bad:
         return bad + '; progs=%s completed schedule=%s' % ([[fmt_read(r) for r in th] for th in d['progs']],
                                                           info.get('sched'))
-    return None
+    return static
 
 
 def signature(case, what):
@@ -1715,6 +2228,8 @@ def signature(case, what):
     scn = d.get('scn', 'raw')
     if 'does not share the lock' in what:
         kind = 'copy-lock-not-shared'
+    elif 'under different locks' in what:
+        kind = 'handle-shared-without-lock'
     elif 'deadlock' in what:
         kind = 'deadlock'
     elif 'single-threaded result' in what:
@@ -1726,8 +2241,25 @@ def signature(case, what):
     return 'concurrent:%s:%s' % (scn, kind)
 
 
+def _valid_history(d):
+    n = 1
+    for op in topo_of(d):
+        if op[0] != 'n' and op[1] >= n:
+            return False
+        if op[0] != 'x':
+            n += 1
+    return True
+
+
 def shrink_candidates(case):
     d = case.data
+    if d['op'] == 'topo':
+        topo = topo_of(d)
+        for k in range(len(topo) - 1, -1, -1):
+            d2 = dict(d, topo=topo[:k] + topo[k + 1:])
+            if _valid_history(d2):
+                yield mk_case(d2, case.stream)
+        return
     sched = d['sched']
     full = (case.extra or {}).get('sched')
     if full and len(full) > len(sched):
